@@ -40,13 +40,15 @@ def direct(c):
             au.get_noise_multiplier(steps=true_steps, **dict(kw, epsilon_tolerance=c['prewarm']))
         except Exception:
             pass
+    opts = dict(c.get('opts') or {})           # accountant options handed through get_noise_multiplier(**kwargs): the calibrated sigma must meet
+    kw.update(opts)                            # the budget under the SAME options
     if c['by'] == 'steps':
         s = au.get_noise_multiplier(steps=true_steps, **kw)
     else:
         s = au.get_noise_multiplier(epochs=c['epochs'], **kw)
     a = create_accountant(c['acc'])
     a.history = [(s, 1 / c['L'], true_steps)]
-    eps = a.get_epsilon(delta=c['delta'])
+    eps = a.get_epsilon(delta=c['delta'], **opts)
     return {'sigma': s, 'eps': float(eps), 'assumed_steps': int(c['epochs'] / (1 / c['L'])), 'true_steps': true_steps}
 
 
